@@ -100,7 +100,7 @@ def main():
     detected = [p for p, c in report.get("checks", {}).items() if c["exit"] == 1]
     report["detected_by"] = detected
     out = os.path.join(VERIF, "seeded", name)
-    if confirmed:
+    if confirmed and "--no-store" not in sys.argv:
         os.makedirs(out, exist_ok=True)
         shutil.copy(patch, os.path.join(out, "patch.diff"))
         shutil.copy(demo, os.path.join(out, "demo.py"))
